@@ -46,6 +46,8 @@ def selfcheck(pid, verbose=True):
     got = {(v["rule"], v["key"]) for v in run.violations}
     must = {tuple(x) for x in expect["must_fire"]}
     problems = []
+    if not must:
+        problems.append("no planted violation is registered for %s: the self-check would be vacuous" % pid)
     for m in sorted(must - got):
         problems.append("rule did not fire on planted violation %s %s" % m)
     for g in sorted(got - must):
